@@ -116,7 +116,14 @@ func c09Gen(rng *verifsim.RNG, idx int, tier string) *Plan {
 	}
 	if rng.Bool(0.2) {
 		p.Class = "runs+timeouts"
-		p.Faults = append(p.Faults, Fault{Seam: "read", Err: "timeout", N: rng.Range(2, 10), Count: rng.Range(1, 3)})
+		// (up to four in a row - one fewer than the receive budget - and half of the
+		// time right behind the first run of invalid messages, which must not
+		// have used up any of it)
+		n := rng.Range(2, 10)
+		if rng.Bool(0.5) {
+			n = firstRun + 1
+		}
+		p.Faults = append(p.Faults, Fault{Seam: "read", Err: "timeout", Skip: n - 1, Count: rng.Range(1, 4)})
 	}
 	if p.Class == "runs" && rng.Bool(0.25) {
 		// A recoverable receive error (the link went away under the socket)
